@@ -217,8 +217,46 @@ func verifRespell(s string, form int) string {
 		return strings.ReplaceAll(s, " ", "\u00a0")
 	case 7:
 		return strings.Replace(strings.Replace(s, "a", "\u00aa", 1), "o", "\u00ba", 1)
+	case 8:
+		// only the last separator becomes a no-break space
+		if i := strings.LastIndex(s, " "); i >= 0 {
+			return s[:i] + "\u00a0" + s[i+1:]
+		}
+	case 9:
+		return verifCompatTwins(s)
 	}
 	return s
+}
+
+var verifCompatTwinTab map[rune]rune
+
+// verifCompatTwins replaces every character that has a compatibility twin (CJK compatibility
+// ideographs, Kangxi / CJK radicals, Hangul compatibility jamo, half-width forms) whose NFKD form is
+// that single character by the twin.
+func verifCompatTwins(s string) string {
+	if verifCompatTwinTab == nil {
+		t := map[rune]rune{}
+		for _, rg := range [][2]rune{{0x2E80, 0x2FDF}, {0x3038, 0x303A}, {0x3131, 0x318E}, {0xF900, 0xFAFF}, {0xFF61, 0xFFDC}, {0x2F800, 0x2FA1D}} {
+			for r := rg[0]; r <= rg[1]; r++ {
+				d := []rune(norm.NFKD.String(string(r)))
+				if len(d) == 1 && d[0] != r {
+					if _, ok := t[d[0]]; !ok {
+						t[d[0]] = r
+					}
+				}
+			}
+		}
+		verifCompatTwinTab = t
+	}
+	var sb strings.Builder
+	for _, r := range s {
+		if tw, ok := verifCompatTwinTab[r]; ok {
+			sb.WriteRune(tw)
+		} else {
+			sb.WriteRune(r)
+		}
+	}
+	return sb.String()
 }
 
 // verifSpell: the canonical word written in another Unicode-equivalent spelling.
@@ -1234,6 +1272,13 @@ func H_C12_race(opA int, lgA Language, opB int, lgB Language, sym int) {
 	wg.Add(2)
 	go run(opA, lgA, "a")
 	go run(opB, lgB, "b")
+	// optionally more goroutines repeating the first call (a third cold-start caller)
+	var extra int64
+	verifGet("extra", &extra)
+	for i := int64(0); i < extra; i++ {
+		wg.Add(1)
+		go run(opA, lgA, "a")
+	}
 	close(start)
 	wg.Wait()
 	verifReach("end")
